@@ -1,5 +1,18 @@
 # Registered checks: property id -> harness files, entries, bounds.  See DESIGN.md section 3.
 SPECS = {
+ "C07": {
+  "explanation": "Kernel tier: the four index kernels of src/Dimensions.cpp are called directly with symbolic position, tick values, counts and match rule; the oracle is the documented rule stated against the axis (neighbours of the answer).",
+  "bounds": {"quick": {"range_ticks": "0..3 symbolic strictly ascending doubles, any non-NaN position", "set_labels": "0..3", "df_rows": "1..2^40 symbolic", "positions_set_df": "|p| < 1e15",
+                       "sampled": "(interval,offset)=(1,0); index <= 255; position anywhere in [x_0-4*interval, x_255]"},
+             "thorough": {"range_ticks": "0..4", "set_labels": "0..4", "sampled": "see entries"}},
+  "outside": ["symbolic sampling interval / offset", "sample indices above the stated bound", "NaN positions (no-crash query only)", "|p| >= 1e15 for set/data-frame (C16)"],
+  "assumptions": ["axis strictly ascending", "operator new never fails"],
+  "harnesses": [
+     {"file": "C07_index.cpp", "defines": {"quick": ["-DVH_RANGE_MAXTICKS=3", "-DVH_SET_MAXLABELS=3", "-DVH_IMAX=255"], "thorough": ["-DVH_RANGE_MAXTICKS=4", "-DVH_SET_MAXLABELS=4", "-DVH_IMAX=255"]},
+      "entries": [{"entry": "vh_c07_range"}, {"entry": "vh_c07_range_nan"}]
+                 + [{"entry": e, "label": "%s.m%d" % (e, m), "fix": {"match": m}} for e in ("vh_c07_set", "vh_c07_df", "vh_c07_sampled_any") for m in range(5)]
+                 + [{"entry": "vh_c07_sampled_roundtrip"}]},
+  ]},
  "T00": {"harnesses": [
      {"file": "t_smoke.cpp", "entries": [{"entry": "vh_smoke1"}, {"entry": "vh_smoke2"}]},
      {"file": "t_s_smoke.cpp", "entries": [{"entry": "vh_s_smoke1"}]},
